@@ -440,7 +440,7 @@ func (g *Gen) Stmt(d int) string {
 		v := fmt.Sprintf("x%d", g.nloop)
 		if g.p(3) {
 			g.feat("cfor")
-			return "for ((" + v + " = 0; " + v + " < " + g.pick([]string{"2", "$a", "(3)", "${#arr[@]}"}) + "; " + v + "++))" + g.nl() + "do " + g.block(d-1, 1) + g.nl() + "done"
+			return "for ((" + v + " = 0; " + v + " < " + g.pick([]string{"2", "3", "(3)", "${#arr[@]}"}) + "; " + v + "++))" + g.nl() + "do " + g.block(d-1, 1) + g.nl() + "done"
 		}
 		return "for " + v + " in " + g.words(1, 3) + g.nl() + "do" + g.sp() + "echo \"$" + v + "\"" + g.nl() + g.block(d-1, 1) + g.nl() + "done"
 	case 12:
